@@ -1,0 +1,35 @@
+// Copyright 2025 Ivan Korobkov. All rights reserved.
+// Use of this software is governed by the MIT License
+// that can be found in the LICENSE file.
+
+package spec
+
+import (
+	"github.com/basecomplextech/baselibrary/buffer"
+	"github.com/basecomplextech/spec/internal/decode"
+)
+
+// WriteValue writes an encoded value to the buffer as is, the function is used by the generated
+// code as a write function for lists of any values.
+func WriteValue(b buffer.Buffer, v Value) (int, error) {
+	if _, _, err := decode.DecodeType(v); err != nil {
+		return 0, err
+	}
+
+	p := b.Grow(len(v))
+	copy(p, v)
+	return len(v), nil
+}
+
+// WriteMessage writes an encoded message to the buffer as is, the function is used by the generated
+// code as a write function for lists of any messages.
+func WriteMessage(b buffer.Buffer, m Message) (int, error) {
+	raw := m.Raw()
+	if _, _, err := decode.DecodeType(raw); err != nil {
+		return 0, err
+	}
+
+	p := b.Grow(len(raw))
+	copy(p, raw)
+	return len(raw), nil
+}
